@@ -145,6 +145,254 @@ Ltac adv1 := adv_gen res_pair.
 
 Ltac go := cbv beta iota zeta; cbn [andb negb]; fix_flags; repeat adv1; fl.
 
+(** ** The step cases, generic in the log predicate [A] (which must accept every [ev_ok] event)
+    and in a side condition [okc] on the [collecting] flag.  The hypotheses [rec_*] say what the
+    recursive calls guarantee.  Instances: the flag discipline itself ([flagsA], [okc] trivial)
+    and, in Flags5, "[executions] does not change while a collection is in progress"
+    ([okc c := c = true]). *)
+Section StepsGen.
+  Context (K : conf) (P : prog) (A : lpred) (okc : bool -> Prop).
+  Context (HevA : forall e, ev_ok K e -> lp_ev A e).
+  Context (rec : call -> machine -> machine * outcome).
+  Implicit Types (m : machine) (c f d p : bool).
+  Context (rec_gen : forall k m c f d p, gen k = true -> okc c -> inv A (c, f, d, p) m ->
+                       tq K (c, f, d, p) -> res A (c, f, d, p) (rec k m)).
+  Context (rec_loop : forall n f d p m,
+             inv A (true, f, d, p) m -> res A (true, f, d, p) (rec (KCollectLoop n) m)).
+  Context (rec_once : forall f d p m,
+             inv A (true, f, d, p) m -> res A (true, f, d, p) (rec KCollectOnce m)).
+  Context (rec_finlist : forall L rest any old_f c d p m,
+             okc c -> inv A (c, true, d, p) m -> tq K (c, true, d, p) ->
+             res A (c, old_f, d, p) (rec (KFinalizeList L rest any old_f) m)).
+  Context (rec_droplist : forall L rest old_d c f p m,
+             okc c -> inv A (c, f, true, p) m ->
+             res A (c, f, old_d, p) (rec (KDropList L rest old_d) m)).
+
+  (** callback entries other than [trace]: logged while [is_tracing()] is false *)
+  Lemma inv_emit_cb k o c f d p m :
+    inv A (c, f, d, p) m -> tq K (c, f, d, p) ->
+    match k with KTrace => False | KFin => f = true | _ => True end ->
+    inv A (c, f, d, p) (emit (ECb k o (cur_flags K m)) m).
+  Proof.
+    intros H Hq Hk. apply inv_emit; [|exact H]. apply HevA. unfold cur_flags.
+    rewrite (inv_c _ _ _ _ _ _ H), (inv_f _ _ _ _ _ _ H), (inv_d _ _ _ _ _ _ H).
+    cbn in Hq. cbn. rewrite Hq. split; [reflexivity|]. destruct k; auto; contradiction.
+  Qed.
+
+  Local Hint Extern 2 (res _ _ (rec _ _)) => (eapply rec_gen; [reflexivity | | | ]) : fl.
+  Local Hint Extern 2 (res _ _ (rec (KCollectLoop _) _)) => (eapply rec_loop) : fl.
+  Local Hint Extern 2 (res _ _ (rec KCollectOnce _)) => (eapply rec_once) : fl.
+  Local Hint Extern 2 (res _ _ (rec (KFinalizeList _ _ _ _) _)) => (eapply rec_finlist) : fl.
+  Local Hint Extern 2 (res _ _ (rec (KDropList _ _ _) _)) => (eapply rec_droplist) : fl.
+  Local Hint Extern 1 (inv _ _ (emit (ECb _ _ (cur_flags _ _)) _)) =>
+    (apply inv_emit_cb; [ | | first [exact I | reflexivity]]) : fl.
+
+  Local Hint Extern 1 (okc _) => assumption : fl.
+
+  (** an activation that runs at script level *)
+  Definition gen_ok (X : machine -> machine * outcome) : Prop :=
+    forall c f d p m, okc c -> inv A (c, f, d, p) m -> tq K (c, f, d, p) ->
+                      res A (c, f, d, p) (X m).
+
+  Lemma f_step_script self cs : gen_ok (step_script rec self cs).
+  Proof. intros c f d p m Hc H Hq. unfold step_script. go. Qed.
+  Lemma f_step_store r v : gen_ok (step_store rec r v).
+  Proof. intros c f d p m Hc H Hq. unfold step_store. go. Qed.
+  Lemma f_step_drop_value o : gen_ok (step_drop_value K P rec o).
+  Proof. intros c f d p m Hc H Hq. unfold step_drop_value. go. Qed.
+  Lemma f_step_drop_fields o j : gen_ok (step_drop_fields rec o j).
+  Proof. intros c f d p m Hc H Hq. unfold step_drop_fields. go. Qed.
+  Lemma f_step_drop_map_slots o j : gen_ok (step_drop_map_slots rec o j).
+  Proof. intros c f d p m Hc H Hq. unfold step_drop_map_slots. go. Qed.
+  Lemma f_step_clean_run mo aid s : gen_ok (step_clean_run K P rec mo aid s).
+  Proof. intros c f d p m Hc H Hq. unfold step_clean_run. go. Qed.
+  Lemma f_step_unbag k : gen_ok (step_unbag rec k).
+  Proof. intros c f d p m Hc H Hq. unfold step_unbag. go. Qed.
+
+  (** [Cc::drop]: finalizing / dropping are set around the callbacks and restored on every
+      path *)
+  Lemma f_step_drop_cc o : gen_ok (step_drop_cc K P rec o).
+  Proof.
+    intros c f d p m Hc H Hq. unfold step_drop_cc.
+    destruct (k_fin K) eqn:Ek; go.
+  Qed.
+
+  Lemma f_step_collect_loop k f d p m :
+    inv A (true, f, d, p) m -> res A (true, f, d, p) (step_collect_loop rec k m).
+  Proof. intros H. unfold step_collect_loop. go. Qed.
+
+  (** [__collect]: the tracing phases run with finalizing/dropping cleared; both are restored
+      before anything else happens, also when tracing unwinds *)
+  Lemma f_step_collect_once f d p m :
+    inv A (true, f, d, p) m -> res A (true, f, d, p) (step_collect_once K P rec m).
+  Proof.
+    intros H. unfold step_collect_once.
+    assert (H0 : inv A (true, false, false, p)
+                   (m <| st_finalizing := false |> <| st_dropping := false |>)) by fl.
+    pose proof (inv_trace_pass K P A (true, false, false, p)
+                  (fun o m Hm => HevA _ (ev_ok_trace K A p m o Hm)) _ H0) as H1.
+    destruct (trace_pass K P (m <| st_finalizing := false |> <| st_dropping := false |>))
+      as [m1 pr]. cbn [fst] in H1. cbv beta iota zeta.
+    assert (H2 : inv A (true, f, d, p)
+                   (m1 <| st_finalizing := st_finalizing m |> <| st_dropping := st_dropping m |>))
+      by fl.
+    set (m2 := m1 <| st_finalizing := st_finalizing m |> <| st_dropping := st_dropping m |>) in *.
+    clearbody m2. fix_flags.
+    destruct pr as [L| |]; [|fl..].
+    destruct L as [|g L]; [fl|].
+    destruct (k_fin K) eqn:Ek; fl.
+  Qed.
+
+  Lemma f_step_finalize_list L rest any old_f c d p m :
+    okc c -> inv A (c, true, d, p) m -> tq K (c, true, d, p) ->
+    res A (c, old_f, d, p) (step_finalize_list K P rec L rest any old_f m).
+  Proof. intros Hc H Hq. unfold step_finalize_list. go. Qed.
+
+  Lemma f_step_drop_list L rest old_d c f p m :
+    okc c -> inv A (c, f, true, p) m ->
+    res A (c, f, old_d, p) (step_drop_list K rec L rest old_d m).
+  Proof. intros Hc H. unfold step_drop_list. go. Qed.
+
+  (** *** commands *)
+  Lemma f_cmd_new self dst cls : gen_ok (cmd_new K P rec self dst cls).
+  Proof. intros c f d p m Hc H Hq. unfold cmd_new. go. Qed.
+  Lemma f_cmd_clone self src dst : gen_ok (cmd_clone rec self src dst).
+  Proof. intros c f d p m Hc H Hq. unfold cmd_clone. go. Qed.
+  Lemma f_cmd_drop self l : gen_ok (cmd_drop rec self l).
+  Proof. intros c f d p m Hc H Hq. unfold cmd_drop. go. Qed.
+  Lemma f_cmd_move self src dst : gen_ok (cmd_move rec self src dst).
+  Proof. intros c f d p m Hc H Hq. unfold cmd_move. go. Qed.
+  Lemma f_cmd_mark_alive self l : gen_ok (cmd_mark_alive self l).
+  Proof. intros c f d p m Hc H Hq. unfold cmd_mark_alive. go. Qed.
+  Lemma f_cmd_collect self : gen_ok (cmd_collect rec self).
+  Proof. intros c f d p m Hc H Hq. unfold cmd_collect. go. Qed.
+  Lemma f_cmd_downgrade self l w : gen_ok (cmd_downgrade K self l w).
+  Proof. intros c f d p m Hc H Hq. unfold cmd_downgrade. go. Qed.
+  Lemma f_cmd_upgrade self w dst : gen_ok (cmd_upgrade K rec self w dst).
+  Proof. intros c f d p m Hc H Hq. unfold cmd_upgrade. go. Qed.
+  Lemma f_cmd_w_new self w : gen_ok (cmd_w_new K self w).
+  Proof. intros c f d p m Hc H Hq. unfold cmd_w_new. go. Qed.
+  Lemma f_cmd_w_drop self w : gen_ok (cmd_w_drop K self w).
+  Proof. intros c f d p m Hc H Hq. unfold cmd_w_drop. go. Qed.
+  Lemma f_cmd_try_unwrap self l v : gen_ok (cmd_try_unwrap K self l v).
+  Proof. intros c f d p m Hc H Hq. unfold cmd_try_unwrap. go. Qed.
+  Lemma f_cmd_drop_value self v : gen_ok (cmd_drop_value rec self v).
+  Proof. intros c f d p m Hc H Hq. unfold cmd_drop_value. go. Qed.
+  Lemma f_cmd_fin_again self l : gen_ok (cmd_fin_again K self l).
+  Proof. intros c f d p m Hc H Hq. unfold cmd_fin_again. go. Qed.
+  Lemma f_cmd_register self nd script cs : gen_ok (cmd_register K P rec self nd script cs).
+  Proof. intros c f d p m Hc H Hq. unfold cmd_register. go. Qed.
+  Lemma f_cmd_clean self cs : gen_ok (cmd_clean K rec self cs).
+  Proof. intros c f d p m Hc H Hq. unfold cmd_clean. go. Qed.
+  Lemma f_cmd_c_drop self cs : gen_ok (cmd_c_drop K self cs).
+  Proof. intros c f d p m Hc H Hq. unfold cmd_c_drop. go. Qed.
+  Lemma f_cmd_unbag self k : gen_ok (cmd_unbag rec self k).
+  Proof. intros c f d p m Hc H Hq. unfold cmd_unbag. go. Qed.
+  Lemma f_cmd_borrow self nd : gen_ok (cmd_borrow self nd).
+  Proof. intros c f d p m Hc H Hq. unfold cmd_borrow. go. Qed.
+  Lemma f_cmd_unborrow self nd : gen_ok (cmd_unborrow self nd).
+  Proof. intros c f d p m Hc H Hq. unfold cmd_unborrow. go. Qed.
+  Lemma f_cmd_cfg_auto self b : gen_ok (cmd_cfg_auto K self b).
+  Proof. intros c f d p m Hc H Hq. unfold cmd_cfg_auto. go. Qed.
+  Lemma f_cmd_cfg_percent self n e : gen_ok (cmd_cfg_percent K self n e).
+  Proof. intros c f d p m Hc H Hq. unfold cmd_cfg_percent. go. Qed.
+  Lemma f_cmd_cfg_buffered self b : gen_ok (cmd_cfg_buffered K self b).
+  Proof. intros c f d p m Hc H Hq. unfold cmd_cfg_buffered. go. Qed.
+  Lemma f_cmd_arm self k v : gen_ok (cmd_arm self k v).
+  Proof. intros c f d p m Hc H Hq. unfold cmd_arm. go. Qed.
+  Lemma f_cmd_panic self : gen_ok (cmd_panic self).
+  Proof. intros c f d p m Hc H Hq. unfold cmd_panic. go. Qed.
+  Lemma f_cmd_obs self l : gen_ok (cmd_obs self l).
+  Proof. intros c f d p m Hc H Hq. unfold cmd_obs. go. Qed.
+  Lemma f_cmd_w_obs self w : gen_ok (cmd_w_obs K self w).
+  Proof. intros c f d p m Hc H Hq. unfold cmd_w_obs. go. Qed.
+  Lemma f_cmd_w_clone self src dst : gen_ok (cmd_w_clone K self src dst).
+  Proof. intros c f d p m Hc H Hq. unfold cmd_w_clone. go. Qed.
+  Lemma f_cmd_new_cyclic self dst cls script sw : gen_ok (cmd_new_cyclic K P rec self dst cls script sw).
+  Proof. intros c f d p m Hc H Hq. unfold cmd_new_cyclic. go. Qed.
+  Lemma f_cmd_bag self l k : gen_ok (cmd_bag self l k).
+  Proof.
+    intros c f d p m Hc H Hq. unfold cmd_bag. cbv beta iota zeta. adv1.
+    destruct (y ≫= λ r, read_loc r m0) as [o|]; [|fl].
+    generalize (N.to_nat k). intros n. revert m0 Hr.
+    induction n as [|n IH]; intros m0 Hr; [fl|].
+    destruct (inc_rc (hdr_of m0 o)) as [h|]; [|fl].
+    apply IH. fl.
+  Qed.
+  (** [sobs] samples [is_tracing()]: false at script level *)
+  Lemma f_cmd_s_obs self : gen_ok (cmd_s_obs K self).
+  Proof.
+    intros c f d p m Hc H Hq. unfold cmd_s_obs, ok. apply res_intro, inv_emit_benign; [exact I|].
+    apply inv_emit; [|exact H].
+    unfold cur_flags. cbn [fl_t ev_ok flagsA lp_ev].
+    rewrite (inv_c _ _ _ _ _ _ H), (inv_f _ _ _ _ _ _ H), (inv_d _ _ _ _ _ _ H). exact Hq.
+  Qed.
+
+  Lemma f_step_cmd self cm : gen_ok (step_cmd K P rec self cm).
+  Proof.
+    intros c f d p m. destruct cm; cbn [step_cmd];
+      [ apply f_cmd_new
+      | apply f_cmd_clone
+      | apply f_cmd_drop
+      | apply f_cmd_move
+      | apply f_cmd_mark_alive
+      | apply f_cmd_collect
+      | apply f_cmd_downgrade
+      | apply f_cmd_upgrade
+      | apply f_cmd_w_new
+      | apply f_cmd_w_clone
+      | apply f_cmd_w_drop
+      | apply f_cmd_try_unwrap
+      | apply f_cmd_drop_value
+      | apply f_cmd_fin_again
+      | apply f_cmd_new_cyclic
+      | apply f_cmd_register
+      | apply f_cmd_clean
+      | apply f_cmd_c_drop
+      | apply f_cmd_bag
+      | apply f_cmd_unbag
+      | apply f_cmd_borrow
+      | apply f_cmd_unborrow
+      | apply f_cmd_cfg_auto
+      | apply f_cmd_cfg_percent
+      | apply f_cmd_cfg_buffered
+      | apply f_cmd_arm
+      | apply f_cmd_panic
+      | apply f_cmd_obs
+      | apply f_cmd_w_obs
+      | apply f_cmd_s_obs ].
+  Qed.
+
+  Definition all_steps_ok : Prop :=
+    (forall self cm, gen_ok (step_cmd K P rec self cm)) /\
+    (forall self cs, gen_ok (step_script rec self cs)) /\
+    (forall r v, gen_ok (step_store rec r v)) /\
+    (forall o, gen_ok (step_drop_cc K P rec o)) /\
+    (forall o, gen_ok (step_drop_value K P rec o)) /\
+    (forall o j, gen_ok (step_drop_fields rec o j)) /\
+    (forall o j, gen_ok (step_drop_map_slots rec o j)) /\
+    (forall k, gen_ok (step_unbag rec k)) /\
+    (forall mo aid s, gen_ok (step_clean_run K P rec mo aid s)) /\
+    (forall k f d p m, inv A (true, f, d, p) m ->
+       res A (true, f, d, p) (step_collect_loop rec k m)) /\
+    (forall f d p m, inv A (true, f, d, p) m ->
+       res A (true, f, d, p) (step_collect_once K P rec m)) /\
+    (forall L rest any old_f c d p m, okc c -> inv A (c, true, d, p) m -> tq K (c, true, d, p) ->
+       res A (c, old_f, d, p) (step_finalize_list K P rec L rest any old_f m)) /\
+    (forall L rest old_d c f p m, okc c -> inv A (c, f, true, p) m ->
+       res A (c, f, old_d, p) (step_drop_list K rec L rest old_d m)).
+
+  Lemma all_steps : all_steps_ok.
+  Proof.
+    unfold all_steps_ok.
+    repeat match goal with |- _ /\ _ => split end;
+      auto using f_step_cmd, f_step_script, f_step_store, f_step_drop_cc, f_step_drop_value,
+        f_step_drop_fields, f_step_drop_map_slots, f_step_unbag, f_step_clean_run,
+        f_step_collect_loop, f_step_collect_once, f_step_finalize_list, f_step_drop_list.
+  Qed.
+End StepsGen.
+
+(** ** The flag discipline *)
 Section Steps.
   Context (K : conf) (P : prog).
   Context (rec : call -> machine -> machine * outcome).
@@ -198,52 +446,9 @@ Section Steps.
     apply res_eta, HH. split; [exact (inv_log _ _ _ H)|]. eapply inv_d, H.
   Qed.
 
-  (** callback entries other than [trace]: logged while [is_tracing()] is false *)
-  Lemma inv_emit_cb k o c f d p m :
-    inv A (c, f, d, p) m -> tq K (c, f, d, p) ->
-    match k with KTrace => False | KFin => f = true | _ => True end ->
-    inv A (c, f, d, p) (emit (ECb k o (cur_flags K m)) m).
-  Proof.
-    intros H Hq Hk. apply inv_emit; [|exact H]. unfold cur_flags.
-    rewrite (inv_c _ _ _ _ _ _ H), (inv_f _ _ _ _ _ _ H), (inv_d _ _ _ _ _ _ H).
-    cbn in Hq. cbn. rewrite Hq. split; [reflexivity|]. destruct k; auto; contradiction.
-  Qed.
-
   Local Hint Extern 2 (res _ _ (rec _ _)) => (eapply rec_gen; [reflexivity | | ]) : fl.
   Local Hint Extern 2 (res _ _ (rec KCollect _)) => (eapply rec_collect) : fl.
   Local Hint Extern 2 (res _ _ (rec (KCollectLoop _) _)) => (eapply rec_loop) : fl.
-  Local Hint Extern 2 (res _ _ (rec KCollectOnce _)) => (eapply rec_once) : fl.
-  Local Hint Extern 2 (res _ _ (rec (KFinalizeList _ _ _ _) _)) => (eapply rec_finlist) : fl.
-  Local Hint Extern 2 (res _ _ (rec (KDropList _ _ _) _)) => (eapply rec_droplist) : fl.
-  Local Hint Extern 1 (inv _ _ (emit (ECb _ _ (cur_flags _ _)) _)) =>
-    (apply inv_emit_cb; [ | | first [exact I | reflexivity]]) : fl.
-
-  (** an activation that runs at script level *)
-  Definition gen_ok (X : machine -> machine * outcome) : Prop :=
-    forall c f d p m, inv A (c, f, d, p) m -> tq K (c, f, d, p) -> res A (c, f, d, p) (X m).
-
-  Lemma f_step_script self cs : gen_ok (step_script rec self cs).
-  Proof. intros c f d p m H Hq. unfold step_script. go. Qed.
-  Lemma f_step_store r v : gen_ok (step_store rec r v).
-  Proof. intros c f d p m H Hq. unfold step_store. go. Qed.
-  Lemma f_step_drop_value o : gen_ok (step_drop_value K P rec o).
-  Proof. intros c f d p m H Hq. unfold step_drop_value. go. Qed.
-  Lemma f_step_drop_fields o j : gen_ok (step_drop_fields rec o j).
-  Proof. intros c f d p m H Hq. unfold step_drop_fields. go. Qed.
-  Lemma f_step_drop_map_slots o j : gen_ok (step_drop_map_slots rec o j).
-  Proof. intros c f d p m H Hq. unfold step_drop_map_slots. go. Qed.
-  Lemma f_step_clean_run mo aid s : gen_ok (step_clean_run K P rec mo aid s).
-  Proof. intros c f d p m H Hq. unfold step_clean_run. go. Qed.
-  Lemma f_step_unbag k : gen_ok (step_unbag rec k).
-  Proof. intros c f d p m H Hq. unfold step_unbag. go. Qed.
-
-  (** [Cc::drop]: finalizing / dropping are set around the callbacks and restored on every
-      path *)
-  Lemma f_step_drop_cc o : gen_ok (step_drop_cc K P rec o).
-  Proof.
-    intros c f d p m H Hq. unfold step_drop_cc.
-    destruct (k_fin K) eqn:Ek; go.
-  Qed.
 
   (** the two collection entry points need no hypothesis on the flags *)
   Lemma f_step_trigger c f d p m :
@@ -261,183 +466,37 @@ Section Steps.
   Lemma f_step_collect f d p m :
     inv A (false, f, d, p) m -> res A (false, f, d, p) (step_collect K rec m).
   Proof. intros H. unfold step_collect. go. Qed.
-  Lemma f_step_collect_loop k f d p m :
-    inv A (true, f, d, p) m -> res A (true, f, d, p) (step_collect_loop rec k m).
-  Proof. intros H. unfold step_collect_loop. go. Qed.
-
-  (** [__collect]: the tracing phases run with finalizing/dropping cleared; both are restored
-      before anything else happens, also when tracing unwinds *)
-  Lemma f_step_collect_once f d p m :
-    inv A (true, f, d, p) m -> res A (true, f, d, p) (step_collect_once K P rec m).
-  Proof.
-    intros H. unfold step_collect_once.
-    assert (H0 : inv A (true, false, false, p)
-                   (m <| st_finalizing := false |> <| st_dropping := false |>)) by fl.
-    pose proof (inv_trace_pass K P A (true, false, false, p)
-                  (fun o m => ev_ok_trace K p m o) _ H0) as H1.
-    destruct (trace_pass K P (m <| st_finalizing := false |> <| st_dropping := false |>))
-      as [m1 pr]. cbn [fst] in H1. cbv beta iota zeta.
-    assert (H2 : inv A (true, f, d, p)
-                   (m1 <| st_finalizing := st_finalizing m |> <| st_dropping := st_dropping m |>))
-      by fl.
-    set (m2 := m1 <| st_finalizing := st_finalizing m |> <| st_dropping := st_dropping m |>) in *.
-    clearbody m2. fix_flags.
-    destruct pr as [L| |]; [|fl..].
-    destruct L as [|g L]; [fl|].
-    destruct (k_fin K) eqn:Ek; fl.
-  Qed.
-
-  Lemma f_step_finalize_list L rest any old_f c d p m :
-    inv A (c, true, d, p) m -> tq K (c, true, d, p) ->
-    res A (c, old_f, d, p) (step_finalize_list K P rec L rest any old_f m).
-  Proof. intros H Hq. unfold step_finalize_list. go. Qed.
-
-  Lemma f_step_drop_list L rest old_d c f p m :
-    inv A (c, f, true, p) m ->
-    res A (c, f, old_d, p) (step_drop_list K rec L rest old_d m).
-  Proof. intros H. unfold step_drop_list. go. Qed.
-
-  (** *** commands *)
-  Lemma f_cmd_new self dst cls : gen_ok (cmd_new K P rec self dst cls).
-  Proof. intros c f d p m H Hq. unfold cmd_new. go. Qed.
-  Lemma f_cmd_clone self src dst : gen_ok (cmd_clone rec self src dst).
-  Proof. intros c f d p m H Hq. unfold cmd_clone. go. Qed.
-  Lemma f_cmd_drop self l : gen_ok (cmd_drop rec self l).
-  Proof. intros c f d p m H Hq. unfold cmd_drop. go. Qed.
-  Lemma f_cmd_move self src dst : gen_ok (cmd_move rec self src dst).
-  Proof. intros c f d p m H Hq. unfold cmd_move. go. Qed.
-  Lemma f_cmd_mark_alive self l : gen_ok (cmd_mark_alive self l).
-  Proof. intros c f d p m H Hq. unfold cmd_mark_alive. go. Qed.
-  Lemma f_cmd_collect self : gen_ok (cmd_collect rec self).
-  Proof. intros c f d p m H Hq. unfold cmd_collect. go. Qed.
-  Lemma f_cmd_downgrade self l w : gen_ok (cmd_downgrade K self l w).
-  Proof. intros c f d p m H Hq. unfold cmd_downgrade. go. Qed.
-  Lemma f_cmd_upgrade self w dst : gen_ok (cmd_upgrade K rec self w dst).
-  Proof. intros c f d p m H Hq. unfold cmd_upgrade. go. Qed.
-  Lemma f_cmd_w_new self w : gen_ok (cmd_w_new K self w).
-  Proof. intros c f d p m H Hq. unfold cmd_w_new. go. Qed.
-  Lemma f_cmd_w_drop self w : gen_ok (cmd_w_drop K self w).
-  Proof. intros c f d p m H Hq. unfold cmd_w_drop. go. Qed.
-  Lemma f_cmd_try_unwrap self l v : gen_ok (cmd_try_unwrap K self l v).
-  Proof. intros c f d p m H Hq. unfold cmd_try_unwrap. go. Qed.
-  Lemma f_cmd_drop_value self v : gen_ok (cmd_drop_value rec self v).
-  Proof. intros c f d p m H Hq. unfold cmd_drop_value. go. Qed.
-  Lemma f_cmd_fin_again self l : gen_ok (cmd_fin_again K self l).
-  Proof. intros c f d p m H Hq. unfold cmd_fin_again. go. Qed.
-  Lemma f_cmd_register self nd script cs : gen_ok (cmd_register K P rec self nd script cs).
-  Proof. intros c f d p m H Hq. unfold cmd_register. go. Qed.
-  Lemma f_cmd_clean self cs : gen_ok (cmd_clean K rec self cs).
-  Proof. intros c f d p m H Hq. unfold cmd_clean. go. Qed.
-  Lemma f_cmd_c_drop self cs : gen_ok (cmd_c_drop K self cs).
-  Proof. intros c f d p m H Hq. unfold cmd_c_drop. go. Qed.
-  Lemma f_cmd_unbag self k : gen_ok (cmd_unbag rec self k).
-  Proof. intros c f d p m H Hq. unfold cmd_unbag. go. Qed.
-  Lemma f_cmd_borrow self nd : gen_ok (cmd_borrow self nd).
-  Proof. intros c f d p m H Hq. unfold cmd_borrow. go. Qed.
-  Lemma f_cmd_unborrow self nd : gen_ok (cmd_unborrow self nd).
-  Proof. intros c f d p m H Hq. unfold cmd_unborrow. go. Qed.
-  Lemma f_cmd_cfg_auto self b : gen_ok (cmd_cfg_auto K self b).
-  Proof. intros c f d p m H Hq. unfold cmd_cfg_auto. go. Qed.
-  Lemma f_cmd_cfg_percent self n e : gen_ok (cmd_cfg_percent K self n e).
-  Proof. intros c f d p m H Hq. unfold cmd_cfg_percent. go. Qed.
-  Lemma f_cmd_cfg_buffered self b : gen_ok (cmd_cfg_buffered K self b).
-  Proof. intros c f d p m H Hq. unfold cmd_cfg_buffered. go. Qed.
-  Lemma f_cmd_arm self k v : gen_ok (cmd_arm self k v).
-  Proof. intros c f d p m H Hq. unfold cmd_arm. go. Qed.
-  Lemma f_cmd_panic self : gen_ok (cmd_panic self).
-  Proof. intros c f d p m H Hq. unfold cmd_panic. go. Qed.
-  Lemma f_cmd_obs self l : gen_ok (cmd_obs self l).
-  Proof. intros c f d p m H Hq. unfold cmd_obs. go. Qed.
-  Lemma f_cmd_w_obs self w : gen_ok (cmd_w_obs K self w).
-  Proof. intros c f d p m H Hq. unfold cmd_w_obs. go. Qed.
-  Lemma f_cmd_w_clone self src dst : gen_ok (cmd_w_clone K self src dst).
-  Proof. intros c f d p m H Hq. unfold cmd_w_clone. go. Qed.
-  Lemma f_cmd_new_cyclic self dst cls script sw : gen_ok (cmd_new_cyclic K P rec self dst cls script sw).
-  Proof. intros c f d p m H Hq. unfold cmd_new_cyclic. go. Qed.
-  Lemma f_cmd_bag self l k : gen_ok (cmd_bag self l k).
-  Proof.
-    intros c f d p m H Hq. unfold cmd_bag. cbv beta iota zeta. adv1.
-    destruct (y ≫= λ r, read_loc r m0) as [o|]; [|fl].
-    generalize (N.to_nat k). intros n. revert m0 Hr.
-    induction n as [|n IH]; intros m0 Hr; [fl|].
-    destruct (inc_rc (hdr_of m0 o)) as [h|]; [|fl].
-    apply IH. fl.
-  Qed.
-  (** [sobs] samples [is_tracing()]: false at script level *)
-  Lemma f_cmd_s_obs self : gen_ok (cmd_s_obs K self).
-  Proof.
-    intros c f d p m H Hq. unfold cmd_s_obs, ok. apply res_intro, inv_emit_benign; [exact I|].
-    apply inv_emit; [|exact H].
-    unfold cur_flags. cbn [fl_t ev_ok flagsA lp_ev].
-    rewrite (inv_c _ _ _ _ _ _ H), (inv_f _ _ _ _ _ _ H), (inv_d _ _ _ _ _ _ H). exact Hq.
-  Qed.
-
-  Lemma f_step_cmd self cm : gen_ok (step_cmd K P rec self cm).
-  Proof.
-    intros c f d p m. destruct cm; cbn [step_cmd];
-      [ apply f_cmd_new
-      | apply f_cmd_clone
-      | apply f_cmd_drop
-      | apply f_cmd_move
-      | apply f_cmd_mark_alive
-      | apply f_cmd_collect
-      | apply f_cmd_downgrade
-      | apply f_cmd_upgrade
-      | apply f_cmd_w_new
-      | apply f_cmd_w_clone
-      | apply f_cmd_w_drop
-      | apply f_cmd_try_unwrap
-      | apply f_cmd_drop_value
-      | apply f_cmd_fin_again
-      | apply f_cmd_new_cyclic
-      | apply f_cmd_register
-      | apply f_cmd_clean
-      | apply f_cmd_c_drop
-      | apply f_cmd_bag
-      | apply f_cmd_unbag
-      | apply f_cmd_borrow
-      | apply f_cmd_unborrow
-      | apply f_cmd_cfg_auto
-      | apply f_cmd_cfg_percent
-      | apply f_cmd_cfg_buffered
-      | apply f_cmd_arm
-      | apply f_cmd_panic
-      | apply f_cmd_obs
-      | apply f_cmd_w_obs
-      | apply f_cmd_s_obs ].
-  Qed.
-
-  Lemma gen_ok_post (X : machine -> machine * outcome) k m :
-    gen_ok X -> target k m = ctl m -> log_ok K (log m) -> quiet K m ->
-    Post K k m (X m).1 (X m).2.
-  Proof.
-    intros HX Ht Hl Hq. unfold Post. rewrite Ht. unfold ctl. rewrite <- surjective_pairing.
-    apply HX; [split; [reflexivity | exact Hl] | exact Hq].
-  Qed.
 
   (** the step case of [run_ind] *)
   Lemma flags_step_ok : rec_ok (Pre K) (Post K) (step K P rec).
   Proof.
+    pose proof (all_steps K P A (fun _ => True) (fun e He => He) rec
+                  (fun k m c f d p Hg _ H Hq => rec_gen k m _ Hg H Hq)
+                  rec_loop rec_once
+                  (fun L rest any old_f c d p m _ H Hq => rec_finlist L rest any old_f c d p m H Hq)
+                  (fun L rest old_d c f p m _ H => rec_droplist L rest old_d c f p m H))
+      as (G1 & G2 & G3 & G4 & G5 & G6 & G7 & G8 & G9 & G10 & G11 & G12 & G13).
     intros k m [Hl Hc]. unfold Post. rewrite <- surjective_pairing.
     destruct k; cbn [step]; cbn [cond] in Hc.
-    - apply f_step_cmd; [apply inv_self, Hl | exact Hc].
-    - apply f_step_script; [apply inv_self, Hl | exact Hc].
-    - apply f_step_store; [apply inv_self, Hl | exact Hc].
-    - apply f_step_drop_cc; [apply inv_self, Hl | exact Hc].
-    - apply f_step_drop_value; [apply inv_self, Hl | exact Hc].
-    - apply f_step_drop_fields; [apply inv_self, Hl | exact Hc].
-    - apply f_step_drop_map_slots; [apply inv_self, Hl | exact Hc].
+    - apply G1; [exact I | apply inv_self, Hl | exact Hc].
+    - apply G2; [exact I | apply inv_self, Hl | exact Hc].
+    - apply G3; [exact I | apply inv_self, Hl | exact Hc].
+    - apply G4; [exact I | apply inv_self, Hl | exact Hc].
+    - apply G5; [exact I | apply inv_self, Hl | exact Hc].
+    - apply G6; [exact I | apply inv_self, Hl | exact Hc].
+    - apply G7; [exact I | apply inv_self, Hl | exact Hc].
     - apply f_step_trigger, inv_self, Hl.
     - apply f_step_collect_cycles, inv_self, Hl.
     - unfold target, ctl. rewrite Hc. apply f_step_collect. rewrite <- Hc. apply inv_self, Hl.
-    - unfold target, ctl. rewrite Hc. apply f_step_collect_loop. rewrite <- Hc. apply inv_self, Hl.
-    - unfold target, ctl. rewrite Hc. apply f_step_collect_once. rewrite <- Hc. apply inv_self, Hl.
-    - destruct Hc as [Hq Hf]. unfold target. apply f_step_finalize_list.
+    - unfold target, ctl. rewrite Hc. apply G10. rewrite <- Hc. apply inv_self, Hl.
+    - unfold target, ctl. rewrite Hc. apply G11. rewrite <- Hc. apply inv_self, Hl.
+    - destruct Hc as [Hq Hf]. unfold target. apply G12.
+      + exact I.
       + rewrite <- Hf. apply inv_self, Hl.
       + unfold quiet in Hq. rewrite Hf in Hq. exact Hq.
-    - unfold target. apply f_step_drop_list. rewrite <- Hc. apply inv_self, Hl.
-    - apply f_step_unbag; [apply inv_self, Hl | exact Hc].
-    - apply f_step_clean_run; [apply inv_self, Hl | exact Hc].
+    - unfold target. apply G13; [exact I|]. rewrite <- Hc. apply inv_self, Hl.
+    - apply G8; [exact I | apply inv_self, Hl | exact Hc].
+    - apply G9; [exact I | apply inv_self, Hl | exact Hc].
   Qed.
 End Steps.
 
